@@ -676,10 +676,10 @@ STRATS = {
 
 # clause -> (shards in the quick tier, cases per shard)
 PLAN = {
-    "reflect_geo": (2, 700), "reflect_app": (2, 700),
-    "frame_j2000": (2, 700), "rect_mean": (1, 800), "rect_j2000": (2, 700),
-    "rect_b1950": (2, 700), "rect_equinox": (3, 700),
-    "obliquity": (2, 1500), "nutation": (2, 1000), "coarse": (2, 700),
+    "reflect_geo": (2, 1000), "reflect_app": (2, 1000),
+    "frame_j2000": (2, 1000), "rect_mean": (1, 1000), "rect_j2000": (2, 1000),
+    "rect_b1950": (2, 1000), "rect_equinox": (4, 800),
+    "obliquity": (2, 2000), "nutation": (2, 1200), "coarse": (2, 1000),
 }
 
 
